@@ -148,13 +148,23 @@ def run_structural(chk, F):
     chk.expect("W3.drop", "drop", okd and seen == {"le", "be"}, "Drop for BufBitWriter dispatches wrongly: %s" % why, sample={"paths": sorted(seen)})
     ii = F.body("impls::buf_bit_writer::BufBitWriter::<E, WW, WP>::into_inner")
     oki = True
-    for p in mir.walk(ii):
-        names = [ev[1] for ev in p.calls()]
-        if p.ret is not None and p.ret[0] == "agg" and p.ret[3] == "Ok":
-            oki = oki and names[:1] == ["traits::bits::BitWrite::flush"] and "std::ptr::read" in names and "std::mem::forget" in names \
-                and names.index("std::ptr::read") < names.index("std::mem::forget") and names.count("traits::bits::BitWrite::flush") == 1
+    NEUTRAL = ("std::mem::forget", "std::mem::ManuallyDrop::<T>::new")      # what takes the writer by value without running its destructor
+    for p in mir.walk_inline(ii, F):
+        evs = [ev for ev in p.events if ev[0] == "call" and not mir_inlined(F, ev[1])]
+        names = [ev[1] for ev in evs]
+        okval = isinstance(p.ret, tuple) and p.ret[0] == "agg" and p.ret[3] == "Ok"
+        if p.end[0] != "return":
+            continue
+        reads = [ev for ev in evs if ev[1] == "std::ptr::read"]
+        if okval:
+            # flushed exactly once and first; the backend read out of the writer; the writer itself handed, whole, to forget/ManuallyDrop
+            # (so its destructor, which would flush and drop the backend again, never runs) and never dropped on this path
+            neutral = [ev for ev in evs if ev[1] in NEUTRAL and ev[2] and mir.mentions(ev[2][0], lambda x: x == ("arg", 1, "self"))]
+            dropped = [ev for ev in p.events if ev[0] == "drop" and mir.mentions(ev[1], lambda x: x == ("arg", 1, "self"))]
+            oki = oki and names[:1] == ["traits::bits::BitWrite::flush"] and names.count("traits::bits::BitWrite::flush") == 1 \
+                and len(reads) == 1 and backend_derived(reads[0][2][0]) and len(neutral) == 1 and not dropped
         else:
-            oki = oki and "std::ptr::read" not in names
+            oki = oki and not reads
     chk.expect("W3.drop", "into_inner", oki, "into_inner does not flush exactly once before moving the backend out / forgetting self")
     # flush of either endianness: every successful path ends by flushing the backend (after the padded word, if any)
     for e in ("be", "le"):
